@@ -418,3 +418,32 @@ Lemma fault_disk_prune : forall W kh e d m k, (k < length (prune_plan W d kh e))
 Proof.
   intros. apply (fault_step_disk W (Prune kh e) d m k); auto.
 Qed.
+
+Lemma recover_next_store : forall W d m, 0 < W -> consistent W d = true -> cont d = true ->
+  let st' := step W (d, m) (Restart false) in
+  consistent W (fst st') = true /\ cont (fst st') = true /\ mem_sync W (fst st') (snd st') = true /\
+  snd st' = reinit W d /\ recover_ready W d = true /\
+  forall b, succession_ok (fst st') b = true ->
+    stores W (fst st') (snd st') b = true /\
+    let st'' := step W st' (Store b) in
+    d_height (fst st'') = Some (b_num b) /\ consistent W (fst st'') = true /\ cont (fst st'') = true /\
+    mem_sync W (fst st'') (snd st'') = true.
+Proof.
+  intros W d m HW Hc Hk st'. pose proof (recover_good W d m HW (conj Hc Hk)) as (A & B & C).
+  fold st' in A, B, C. repeat split; auto.
+  - unfold recover_ready. apply sync_ready; auto. apply reinit_sync; auto.
+  - apply sync_stores; auto.
+  - (* the height after the store *)
+    pose proof (sync_stores W (fst st') (snd st') b HW C H) as S. unfold stores in S.
+    unfold step. destruct (plan W (Store b) (fst st') (snd st')) as [bs m'] eqn:E. cbn [fst snd] in *.
+    cbn [plan] in E. rewrite H in E.
+    destruct (rf_insert W (snd st') (b_num b) (b_bloom b)) as [[ws m1]|] eqn:Hi; inversion E; subst; [|discriminate].
+    cbn [apply_batches fold_left].
+    pose proof (sync_aligned W _ _ HW C) as Ha.
+    destruct (rf_insert_shape W _ _ _ _ _ HW Ha Hi) as [_ Hws].
+    assert (Hwo : Forall window_only ws). { destruct Hws as [->|[c [-> _]]]; repeat constructor. }
+    destruct (store_fields (fst st') b ws Hwo) as (X & _). exact X.
+  - pose proof (step_good W st' (Store b) HW (conj A (conj B C)) eq_refl) as (X & _). exact X.
+  - pose proof (step_good W st' (Store b) HW (conj A (conj B C)) eq_refl) as (_ & X & _). exact X.
+  - pose proof (step_good W st' (Store b) HW (conj A (conj B C)) eq_refl) as (_ & _ & X). exact X.
+Qed.
